@@ -20,6 +20,13 @@ def make_wl(rng, k):
     opts["counts_format"] = FORMATS[(i // 4) % 4]
     if mode == "file_name":
         spec["n_bams"] = rng.choice([2, 3])
+        # contiguous chunks: an earlier-listed file has no alignments on some chromosome where a later one has
+        spec["bam_split"] = ["chunks", "random", "chunks", "tiny"][(i // 4) % 4]
+        spec["n_chr"] = max(3, spec.get("n_chr", 3))
+        opts["bam_order"] = rng.randrange(1, 20)     # the files are listed in a seeded order, not in chunk order
+        if spec["bam_split"] == "chunks":
+            # no cross-chromosome records: the first file really has nothing on the last chromosome
+            spec.update(paralogs=0, intergenic_multi=0, decoy_chr=0, supplementary=0)
     opts["annotated"] = True
     strats = ["unique_only", "with_ambiguous", "unique_splicing_consistent", "unique_inconsistent", "all"]
     opts["transcript_quant"] = strats[i % 5]
